@@ -96,3 +96,15 @@ PROP["manifest"]["level_text"] += (
     "anything again and never changes status, whatever follows; eof_stays_silent: in particular a POLL subscriber after its half-close, "
     "also when its sender was inside a gated Send — the held response is dropped with the stream, as on the real server), expire_noninterference / expire_only_blocked (expire changes neither the cache "
     "nor any subscriber that is not itself running and inside Send; in the model expire is the timeout of every sender that is inside Send).")
+# bEXP: (ii) without the side condition — the reachable-state invariant "a subscriber that is not running holds no response"
+# (every operation that sets alive := false leaves blocked = none; the failed walk, the only one that does not clear it, happens
+# only at Subscribe, never at a poll: walk_isSome_congr) and dead_stays_silent_any, formerly kept as `def … : Prop`, as a theorem.
+PROP["theorems"] += ["Gnmi.C08Expire." + t for t in [
+    "walk_isSome_congr", "pump_clean", "dinv_subStep", "subscribe_dinv", "step_dinv", "run_dinv",
+    "dead_holds_nothing_reach", "dead_stays_silent_any", "dead_stays_silent_reach", "poll_while_blocked_witness",
+]]
+PROP["manifest"]["level_text"] += (
+    " dead_holds_nothing_reach: in every reachable state of that model a subscriber that is not running holds no response (the sender ends "
+    "one only while it holds nothing, gateOpen / gateStep deliver the held response first, eof and expire drop it, and a walk cannot fail at "
+    "a poll because it did not fail at Subscribe — walk_isSome_congr); hence dead_stays_silent_any / dead_stays_silent_reach: every "
+    "subscriber that is not running, of every reachable state, is never sent anything again, without the side condition 'holds no response'.")
